@@ -89,12 +89,14 @@ def consume(E, st, fid, it_ptr, on_item, on_none, key):
     on_none(st)       -> list of (kind, st, val)"""
     table = {}
     results = []
-    work = [st]
-    while work:
-        s = work.pop()
-        s = E.loop_join(table, key, s)
-        if s is None:
+    pending = [st]
+    work = []
+    while pending or work:
+        if not work:
+            work = E.join_all(table, key, pending)
+            pending = []
             continue
+        s = work.pop()
         E.stats['blocks'] += 1
         for kind, s2, opt in E.iter_next(s, it_ptr, fid):
             if kind == 'unwind':
@@ -106,7 +108,7 @@ def consume(E, st, fid, it_ptr, on_item, on_none, key):
                 else:
                     for r in on_item(s3, c[1]):
                         if r[0] == 'cont':
-                            work.append(r[1])
+                            pending.append(r[1])
                         else:
                             results.append(r[1:])
     return results
@@ -118,12 +120,14 @@ def callback_loop(E, st, fid, closures, key):
     cells = [pin(st, fid, ('ref', True, E.closure_cell(st, c))) for c in closures]
     table = {}
     results = []
-    work = [st]
-    while work:
-        s = work.pop()
-        s = E.loop_join(table, ('cb', fid) + tuple(key), s)
-        if s is None:
+    pending = [st]
+    work = []
+    while pending or work:
+        if not work:
+            work = E.join_all(table, ('cb', fid) + tuple(key), pending)
+            pending = []
             continue
+        s = work.pop()
         E.stats['blocks'] += 1
         # exit
         done = s.fork()
@@ -147,7 +151,7 @@ def callback_loop(E, st, fid, closures, key):
                         unpin(s2, c2)
                     results.append(('unwind', s2, None))
                 else:
-                    work.append(s2)
+                    pending.append(s2)
     return results
 
 
